@@ -45,6 +45,11 @@ EraAct(era, ey, extra, ovf) ==
          o == With(cur.ty, cur.v, p, ovf)
      IN /\ last' = [op |-> "with", ty |-> cur.ty, recv |-> cur.v, p |-> p, ovf |-> ovf, out |-> o, era |-> <<era, ey>>]
         /\ cur' = IF o.kind = "ok" THEN [ty |-> cur.ty, v |-> o.val] ELSE cur
+\* ... and half a designation - era without eraYear or eraYear without era, next to a year or not - is an incomplete record: TypeError
+HalfEraAct(half, withYear, ovf) ==
+  /\ cur # Nothing /\ cur.ty = "date" /\ cur.v.y \in 1..9999
+  /\ last' = [op |-> "with", ty |-> cur.ty, recv |-> cur.v, p |-> IF withYear THEN [year |-> 2000] ELSE [month |-> 3], ovf |-> ovf, out |-> [kind |-> "type"], half |-> half]
+  /\ UNCHANGED cur
 Next == /\ (OneStep => last = None)
         /\ \/ \E ovf \in Ovfs : \E p \in PartialsOf(IF cur = Nothing THEN "none" ELSE cur.ty) : WithAct(p, ovf)
            \/ /\ IdentityOn /\ cur # Nothing
@@ -55,6 +60,8 @@ Next == /\ (OneStep => last = None)
                     WithAct([k \in (DOMAIN OwnFields(cur.ty, cur.v) \cap {"year", "month", "day", "monthCode"}) |-> IF k = "monthCode" THEN c ELSE OwnFields(cur.ty, cur.v)[k]], ovf)
            \/ /\ IdentityOn /\ cur # Nothing /\ cur.ty = "date"
               /\ \E ovf \in Ovfs, extra \in EraExtras : \E e \in {<<"ce", cur.v.y>>, <<"ce", 2023>>, <<"ce", 1>>, <<"bce", 1>>, <<"bce", 5>>} : EraAct(e[1], e[2], extra, ovf)
+           \/ /\ IdentityOn /\ cur # Nothing /\ cur.ty = "date"
+              /\ \E ovf \in Ovfs, half \in {"era", "eraYear"}, wy \in BOOLEAN : HalfEraAct(half, wy, ovf)
            \/ \E ovf \in Ovfs : \E ty \in FromTypes : \E p \in PartialsOf(ty) : FromAct(ty, p, ovf)
            \/ \E ovf \in Ovfs : \E a \in NewArgs : NewAct(a, ovf)
 Spec == Init /\ [][Next]_vars
@@ -143,7 +150,7 @@ RejectRefinesConstrain ==
 \* (6) TypeError exactly for an empty record or one missing a required field
 TypeErrorIff ==
   Done => /\ (last.out.kind \in {"type", "err"}) =>
-                (DOMAIN P = {} \/ (last.op = "from_partial" /\ ((HasDay /\ MissingDate(P)) \/ (last.ty = "yearmonth" /\ MissingYm(P)))))
+                (DOMAIN P = {} \/ "half" \in DOMAIN last \/ (last.op = "from_partial" /\ ((HasDay /\ MissingDate(P)) \/ (last.ty = "yearmonth" /\ MissingYm(P)))))
           /\ (DOMAIN P = {}) => last.out.kind = "type"
           /\ (last.op = "from_partial" /\ ((HasDay /\ MissingDate(P)) \/ (last.ty = "yearmonth" /\ MissingYm(P)))) => last.out.kind \in {"type", "err"}
 
